@@ -7,6 +7,7 @@ from ..rateprobe import exc_detail
 from ..util import KIND, MODEL_NAMES, build, models
 
 PROPERTY = "C13"
+PYTEST_PREFIX = "C13/"
 LEVEL = "fault_enumeration"
 RULE = ("A finite grammar of malformed arguments is enumerated COMPLETELY at every position of each base game: teams in "
         "{None, tuple, dict, set, str, int, generator, [], [one team]}; team i in {tuple, None, int, str, dict, bare "
